@@ -201,6 +201,15 @@ def uses(n):
     return out
 
 
+def has_div(n):
+    """CrossHair's symbolic true division (and comparing its float result with a symbolic int) makes z3 answer
+    unknown: for shapes containing `/` the harness lets the solver pick the integer columns value by value
+    (the arithmetic is then concrete)"""
+    if n[0] == "bin" and n[1] == "div":
+        return True
+    return any(has_div(c) for c in children(n))
+
+
 def show(n):
     t = n[0]
     if t == "col":
@@ -390,7 +399,7 @@ def _arith_terms(op, full):
 
 
 def _atoms_arith(op, full):
-    cmps = CMPS if full else ["eq", "lt"]
+    cmps = ["eq", "ne", "lt", "ge"] if full else ["eq", "lt"]
     rhs = [I(0), I(1), I(-1), Y] if full else [I(1), Y]
     return [cmp_(c, t, r) for t in _arith_terms(op, full) for c in cmps for r in rhs]
 
@@ -436,10 +445,10 @@ def _atoms_str(full):
 
 def _small(full):
     sm = [cmp_("gt", X, I(0)), cmp_("gt", Y, I(0)), cmp_("eq", X, Y), ("in", X, (1, None)), ("notin", X, (1, None)),
-          ("isnull", X), cmp_("eq", S, STR("a")), ("like", "startswith", S, "a", False),
-          cmp_("eq", bin_("mod", X, I(2)), I(1)), cmp_("ge", bin_("div", X, Y), I(1))]
+          ("isnull", X), cmp_("eq", S, STR("a")), cmp_("eq", bin_("mod", X, I(2)), I(1))]
     if full:
-        sm += [cmp_("ne", Y, I(0)), ("notnull", Y), ("in", S, ("a", None)), cmp_("lt", bin_("sub", X, Y), I(0))]
+        sm += [("like", "startswith", S, "a", False), cmp_("ge", bin_("div", X, Y), I(1)), cmp_("ne", Y, I(0)),
+               ("notnull", Y), ("in", S, ("a", None)), cmp_("lt", bin_("sub", X, Y), I(0))]
     return sm
 
 
@@ -459,7 +468,7 @@ def _families(tier):
     core = sm[:5] if q else sm[:8]
     fam["null_of_and2"] = [(k, (c, (a, b))) for k in ("isnull", "notnull") for c in ("and", "or") for a in core for b in core]
     if not q:
-        c3 = sm[:6] + [sm[8]]
+        c3 = sm[:6]
         fam["and3"] = [("and", (a, b, c)) for a in c3 for b in c3 for c in c3]
         fam["or3"] = [("or", (a, b, c)) for a in c3 for b in c3 for c in c3]
         fam["and_or"] = [("and", (("or", (a, b)), c)) for a in c3 for b in c3 for c in c3]
@@ -576,15 +585,25 @@ def _vkind(v):
     return "value"
 
 
-def blame_key(b):
-    """normalised defect key of a blamed node: operator + the static feature of the node that matters"""
+def blame_key(b, env=None):
+    """Normalised defect key of a blamed node: operator + the static feature of the node that matters + the two
+    results; with ``env`` (concrete row, classify time) also the feature of the operand values that matters."""
     if b is None:
         return "no-subexpression-disagrees-with-the-reference"
     n, got, want = b
     t = n[0]
     res = "evaluator=%s,sql=%s" % (_vkind(got), _vkind(want))
+    vals = [ref(c, env) for c in children(n)] if env is not None else None
     if t in ("and", "or"):
-        return "%s_:%s" % (t, res)
+        feat = ""
+        if vals is not None:
+            kinds = [_vkind(v) for v in vals]
+            decisive = "FALSE" if t == "and" else "TRUE"
+            if "NULL" in kinds and decisive in kinds and kinds.index("NULL") < kinds.index(decisive):
+                feat = ":null-operand-before-%s-operand" % decisive.lower()
+            else:
+                feat = ":operands=" + "/".join(kinds)
+        return "%s_%s:%s" % (t, feat, res)
     if t == "not":
         return "not_:%s" % res
     if t in ("in", "notin"):
@@ -599,7 +618,11 @@ def blame_key(b):
         feat = ("autoescape" if n[4] else ("wildcard-in-operand" if wild else "plain-operand"))
         return "%s:%s:%s" % (n[1], feat, res)
     if t == "bin":
-        return "%s:%s" % ({"add": "+", "sub": "-", "mul": "*", "mod": "%", "div": "/", "concat": "concat"}[n[1]], res)
+        feat = ""
+        if vals is not None and n[1] in ("mod", "div"):
+            neg = any(isinstance(v, (int, float)) and v < 0 for v in vals)
+            feat = ":negative-operand" if neg else ":non-negative-operands"
+        return "%s%s:%s" % ({"add": "+", "sub": "-", "mul": "*", "mod": "%", "div": "/", "concat": "concat"}[n[1]], feat, res)
     if t == "cmp":
         return "%s:%s" % (n[1], res)
     return t
@@ -642,15 +665,23 @@ def _e2e(crit, x, y, s):
         eng.dispose()
 
 
-def _alpha_ok(s, alpha):
-    for ch in s:
-        ok = False
+def _bounded(v, vmax):
+    assume((-vmax <= v) & (v <= vmax))
+    return v
+
+
+def _bounded_str(s, smax, alpha):
+    """length <= smax, characters from ``alpha``: one solver decision for the length, one for the alphabet"""
+    n = pin_code(len(s), 0, smax + 1)
+    ok = True
+    for i in range(n):
+        ch = s[i]
+        one = False
         for a in alpha:
-            if ch == a:
-                ok = True
-        if not ok:
-            return False
-    return True
+            one = one | (ch == a)
+        ok = ok & one
+    assume(ok)
+    return s
 
 
 def h_eval(tier: str, fam: str, lo: int, hi: int, neg: bool, vmax: int, smax: int, alpha: str,
@@ -663,20 +694,20 @@ def h_eval(tier: str, fam: str, lo: int, hi: int, neg: bool, vmax: int, smax: in
     n = ("not", shape) if neg else shape
     u = _native(uses, shape)
     # bounds (only on the columns the criteria reads; the others are NULL)
+    dv = ("x", "y") if _native(has_div, shape) else ()
     if "x" in u:
         if x is not None:
-            assume((-vmax <= x) & (x <= vmax))
+            x = pin_code(x, -vmax, vmax + 1) if "x" in dv else _bounded(x, vmax)
     else:
         x = None
     if "y" in u:
         if y is not None:
-            assume((-vmax <= y) & (y <= vmax))
+            y = pin_code(y, -vmax, vmax + 1) if "y" in dv else _bounded(y, vmax)
     else:
         y = None
     if "s" in u:
         if s is not None:
-            assume(len(s) <= smax)
-            assume(_alpha_ok(s, alpha))
+            s = _bounded_str(s, smax, alpha)
     else:
         s = None
     if not _tracing():
@@ -730,10 +761,10 @@ META = {
                   "shapes": "atoms: 6 comparisons over columns/constants; comparisons of one + - * % / term; IN / NOT IN "
                             "(plain, with NULL, empty); IS [NOT] NULL of columns, arithmetic, concatenation and predicates; string "
                             "comparisons, concat, startswith/endswith/contains (plain, wildcard, autoescape); and_/or_ of two out of "
-                            "10 atoms; IS [NOT] NULL of and_/or_ of two out of 6 atoms; NOT of every shape"},
+                            "8 atoms; IS [NOT] NULL of and_/or_ of two out of 5 atoms; NOT of every shape"},
         "thorough": {"x, y": "NULL or -5..5", "s": "NULL or length <= 2 over 'ab%_/'",
                      "shapes": "larger atom families; and_/or_ of two out of 14 atoms; and_/or_ of three, and_(or_), or_(and_) out "
-                               "of 7 atoms; and_(not_(and_)), or_(not_(or_)); NOT of every shape"},
+                               "of 6 atoms; and_(not_(and_)), or_(not_(or_)); NOT of every shape"},
     },
     "outside": [
         "synchronize_session='fetch' / 'auto', DELETE, SET-clause expressions other than col + constant",
@@ -781,7 +812,7 @@ def classify(hname, args, rep):
     obj = A()
     obj.__dict__.update(env)
     b = blame(n, env, obj)
-    key = "C43:" + blame_key(b)
+    key = "C43:" + blame_key(b, env)
     if b is None:
         what = "no sub-expression disagrees with the reference semantics"
     else:
